@@ -45,9 +45,16 @@ MANIFEST_ENTRY = {
         "representation limit recorded in the ledger."),
     "technique": "Lean 4 proof (list/digit lemmas, omega) + model/implementation correspondence + independent-reader oracle",
 }
-PROP_FILES = ["DashLive/Props/C19.lean"]
-LEAN_TARGETS = ["DashLive.Props.C19"]
-GENERATORS = []
+PROP_FILES = ["DashLive/Props/C19.lean", "DashLive/Props/GenTie.lean"]
+LEAN_TARGETS = ["DashLive.Props.C19", "DashLive.Props.GenTie"]
+
+
+def _gen_arith():
+    """Gen/Arith.lean is translated from /repo's source text; Props/GenTie.lean ties it to the model"""
+    import gen_arith
+    gen_arith.main()
+
+GENERATORS = [_gen_arith]
 TRUSTED = [
     "IEEE-754 double arithmetic (CPython float, Lean Float) for int((secs - floor(secs)) * 1000 + 0.5); the driver's "
     "Float re-implementation is compared bit-for-bit input by input (channel isodurf) and its result is checked "
